@@ -34,6 +34,22 @@ type Case struct {
 // off for most of its (large) cases: they are checked by the direct oracle only.
 var emitModel = true
 
+// callsDiffer: per function, the cases on which the callback was not called as the transcribed loop calls it
+// (not fixed by the property, so not a failure; reported as a note of the run)
+var callsDiffer = map[string]int{}
+
+func noteCallsDiffer(c *core.Ctx) {
+	fns := []string{}
+	for fn := range callsDiffer {
+		fns = append(fns, fn)
+	}
+	sort.Strings(fns)
+	for _, fn := range fns {
+		c.Note(fmt.Sprintf("call pattern of %s differs from the transcribed loop on %d cases: the C14_*_calls theorems describe the transcription, not this code "+
+			"(results still compared; the property does not fix these calls)", fn, callsDiffer[fn]))
+	}
+}
+
 // cases above this size are never sent to the model (the model's loops are quadratic in vm_compute)
 const maxModelSize = 600
 
@@ -47,6 +63,7 @@ func replay(c *core.Ctx, raw json.RawMessage) error {
 		return err
 	}
 	exec(c, cs)
+	noteCallsDiffer(c)
 	return nil
 }
 
@@ -597,16 +614,18 @@ func execSlice(c *core.Ctx, cs Case) {
 			c.Fail(cs.Fn+": "+what, fmt.Sprintf("got %v want %v", got, want))
 		}
 	}
-	if cs.Fn == "DistinctFunc" && n > 100 {
-		big = true // its call log is quadratic: too long for a Coq term
-	}
+	// DistinctFunc's call log is quadratic: above 100 elements the case still goes to the model (result compared),
+	// but without its call log (calls None)
+	logTooLong := cs.Fn == "DistinctFunc" && n > 100
 	toModel := emitModel && !big
 	log := &callLog{} // calls of the callback of this case
 	elem := map[int]bool{}
 	for _, v := range l {
 		elem[v] = true
 	}
-	// a callback must never be handed a value that is not an element of the input
+	// a callback must never be handed a value that is not an element of the input (that contradicts every
+	// reference definition). Not used for Fold / FoldReverse: acc's state argument is no element; their calls
+	// are compared exactly, pair by pair, by foldCalls.
 	onlyElements := func(extra ...int) {
 		ok := func(v int) bool {
 			if elem[v] {
@@ -639,11 +658,12 @@ func execSlice(c *core.Ctx, cs Case) {
 		}
 		if !log.same(present) {
 			c.Count("calls_differ_from_present_code")
+			callsDiffer[cs.Fn]++
 			return "None"
 		}
 		c.Count("calls_as_present_code")
-		if !toModel || log.total > len(log.unary)+len(log.pairs) {
-			return "None" // not sent to the model anyway / truncated log
+		if !toModel || logTooLong || log.total > len(log.unary)+len(log.pairs) {
+			return "None" // not sent to the model anyway / log too long for a Coq term / truncated log
 		}
 		if log.pairs != nil {
 			return core.Some(coqPairs(log.pairs))
@@ -1450,6 +1470,7 @@ func run(c *core.Ctx) {
 		}
 		exec(c, cs)
 	}
+	noteCallsDiffer(c)
 }
 
 // ---- oracle-heavy, model-sampled stream ----
